@@ -460,11 +460,16 @@ def run(tier='quick', seed=0, observer=None, n_goals_override=None):
             fam = [lambda: Exists(xv, gen_form(1, [a, xv])), lambda: Exists(xv, Exists(yv, R(xv, yv))),
                    lambda: Forall(yv, Implies(P(yv), Q(yv))), lambda: And(gen_form(1, [a, b]), gen_form(1, [a, b])),
                    lambda: And(Forall(yv, Implies(P(yv), Q(yv))), rng.choice([A, B, C])),
-                   lambda: Exists(xv, P(xv)), lambda: Exists(yv, Q(yv))]
+                   lambda: Exists(xv, P(xv)), lambda: Exists(yv, Q(yv)),
+                   # bound variables that occur only in the conclusion of the fact
+                   lambda: Forall(xv, Implies(rng.choice([A, B, C]), P(xv))),
+                   lambda: Forall(xv, Forall(yv, Implies(Q(xv), R(xv, yv)))),
+                   lambda: Forall(xv, Implies(rng.choice([A, B]), rng.choice([A, C]), Q(xv)))]
             assms_ = [rng.choice(fam)() for _ in range(rng.choice([1, 2, 2, 3]))]
             concl_ = rng.choice([lambda: Forall(xv, Implies(P(xv), Or(Q(xv), rng.choice([A, B, C])))),
                                  lambda: Implies(gen_form(1, [a, b]), gen_form(1, [a, b])),
-                                 lambda: gen_form(2, [a, b]), lambda: rng.choice([A, B, C])])()
+                                 lambda: gen_form(2, [a, b]), lambda: rng.choice([A, B, C]),
+                                 lambda: rng.choice([P, Q])(rng.choice([a, b])), lambda: R(a, b)])()
             goal = Implies(*(assms_ + [concl_]))
         else:
             goal = Implies(*([gen_form(2, [a, b]) for _ in range(nas)] + [gen_form(2, [a, b])]))
